@@ -76,6 +76,11 @@ def parse_output(out, harnesses):
             r['checks_failed'] = int(m.group(1))
             r['checks_total'] = int(m.group(2))
             continue
+        m = re.match(r'^\s*\*\* (\d+) of (\d+) cover properties satisfied', ln)
+        if m:
+            r['covers_sat'] = int(m.group(1))
+            r['covers_total'] = int(m.group(2))
+            continue
         m = re.match(r'^Failed Checks: (.*)$', ln)
         if m:
             r['failed_checks'].append(m.group(1).strip())
@@ -219,10 +224,18 @@ def run_sets(sets, src_root, prop, tier):
                 else:
                     r.update(checks_total=pr['checks_total'], checks_failed=pr['checks_failed'], failed_checks=pr['failed_checks'],
                              wall_s=pr['time_s'], solver_s=pr['time_s'])
+                    r['covers'] = [pr.get('covers_sat'), pr.get('covers_total')]
                     if pr['verdict'] == 'SUCCESSFUL':
                         r['status'] = 'ok'
+                        if h.get('mustpanic'):
+                            r['checks_failed'] = 0   # the expected panic is the obligation and it was met
+                            r['failed_checks'] = []
                         if pr['checks_total'] == 0:
                             r.update(status='undecided', reason='zero checks generated')
+                        elif pr.get('covers_total') and pr.get('covers_sat', 0) < pr['covers_total']:
+                            r.update(status='undecided', reason='VACUOUS: harness end unreachable (cover unsatisfied)')
+                        elif not h.get('mustpanic') and pr.get('covers_total') is None:
+                            r.update(status='undecided', reason='no reachability cover reported')
                     else:
                         # unwinding assertion failures mean the bound is too small: tool limit, not a violation
                         only_unwind = pr['failed_checks'] and all('unwinding assertion' in c for c in pr['failed_checks'])
